@@ -25,6 +25,8 @@ FLAVOURS = {"asyncio": asyncio, "trio": trio, "threading": threading}
 MAIN_GATES = ("mr.launch.begin", "mr.launch.created", "mr.launched", "mr.running.set", "mr.unq.begin", "mr.reg.direct", "mr.unq.cleared", "mr.unq.end")
 SUB_GATES = ("mr.reg.miss", "mr.reg.queue", "mr.reg.direct")
 CLOSE_GATES = ("mr.aclose.begin", "mr.aclose.end", "mr.running.clear")
+STOP_MAIN_GATES = ("mr.finally", "mr.running.clear")
+SHUT_GATES = ("sr.shutdown.flag", "sr.shutdown.stop", "sr.shutdown.ret")
 STEP_TIMEOUT = 5.0
 
 
@@ -84,7 +86,8 @@ def run_job(job):
         return payload
 
     closing = bool(job.get("close"))
-    tags = {"main": CLOSE_GATES if closing else MAIN_GATES}
+    stopping = bool(job.get("stop"))
+    tags = {"main": CLOSE_GATES if closing else STOP_MAIN_GATES if stopping else MAIN_GATES, "shut": SHUT_GATES}
     for s in range(1, len(flav) + 1):
         tags["s%d" % s] = SUB_GATES
     gate = hooks.gate_on(tags)
@@ -101,7 +104,7 @@ def run_job(job):
             c = e.__cause__
             main_end["exc"] = "%s:%s" % (type(e).__name__, str(e)[:60])
             main_end["cause"] = "%s:%s" % (type(c).__name__, str(c)[:80]) if c is not None else ""
-        gate.arrivals.put(("main", "end", dict(main_end)))
+        gate.post("main", "end", dict(main_end))
 
     def sub_thread(s):
         tag = "s%d" % s
@@ -114,11 +117,32 @@ def run_job(job):
         except BaseException as e:  # noqa: B036
             exc = e
         results[s] = classify(exc)
-        gate.arrivals.put((tag, "ret", {"res": results[s]}))
+        gate.post(tag, "ret", {"res": results[s]})
 
     steps = []
     stuck = None
+    main_parked = []
     fail_now = threading.Event()
+    shut_end = {}
+
+    def shut_thread():
+        hooks.name_thread("shut")
+        try:
+            runtime.shutdown()
+            shut_end["exc"] = ""
+        except BaseException as e:  # noqa: B036
+            shut_end["exc"] = "%s:%s" % (type(e).__name__, str(e)[:80])
+        gate.post("shut", "ret", {"res": shut_end["exc"] or "ok"})
+
+    if stopping:
+        # Stopping.tla: the runtime is brought up undisturbed; "shut" steps drive a thread
+        # inside ServiceRunner.shutdown(), main is gated where it leaves the running state
+        t = threading.Thread(target=main_thread, daemon=True, name="main")
+        threads["main"] = t
+        t.start()
+        if not runtime.running.wait(5.0):
+            stuck = {"who": "startup", "after": 0}
+        time.sleep(0.03)
     if closing:
         # Closing.tla: the runtime is brought up undisturbed (main is gated at the closing hooks
         # only) with one thread payload that fails when the schedule says "fail"
@@ -140,24 +164,29 @@ def run_job(job):
     for who in job["sched"]:
         if stuck:
             break
-        tag = "main" if who in ("main", "fail") else "s%d" % who
-        if who == "fail":
-            fail_now.set()
-        elif tag not in threads:
-            t = threading.Thread(target=main_thread if who == "main" else sub_thread, args=() if who == "main" else (who,), daemon=True, name=tag)
-            threads[tag] = t
-            t.start()
-        else:
-            gate.go(tag)
+        tag = "main" if who in ("main", "fail") else "shut" if who == "shut" else "s%d" % who
         try:
-            atag, name, fields = gate.arrivals.get(timeout=STEP_TIMEOUT)
+            if who == "fail":
+                fail_now.set()
+            elif tag not in threads:
+                target, args = (main_thread, ()) if who == "main" else (shut_thread, ()) if who == "shut" else (sub_thread, (who,))
+                t = threading.Thread(target=target, args=args, daemon=True, name=tag)
+                threads[tag] = t
+                t.start()
+            else:
+                if stopping and who == "main" and not main_parked:
+                    # main got to mr.finally on its own when the last runner was stopped
+                    name, fields = gate.wait("main", STEP_TIMEOUT)
+                    if name != "mr.finally":
+                        stuck = {"who": who, "after": len(steps), "arrived": name}
+                        break
+                    main_parked.append(1)
+                gate.go(tag)
+            name, fields = gate.wait(tag, STEP_TIMEOUT)
         except queue.Empty:
             stuck = {"who": who, "after": len(steps)}
             break
-        steps.append({"who": "main" if atag == "main" else int(atag[1:]), "at": name, "res": fields.get("res", ""), "exc": fields.get("exc", ""), "cause": fields.get("cause", ""), "flavour": fields.get("flavour", "")})
-        if atag != tag:
-            stuck = {"who": who, "after": len(steps), "arrived": atag}
-            break
+        steps.append({"who": tag if tag in ("main", "shut") else int(tag[1:]), "at": name, "res": fields.get("res", ""), "exc": fields.get("exc", ""), "cause": fields.get("cause", ""), "flavour": fields.get("flavour", "")})
     # let everything run to the end of its call, then wait for the starts to settle
     hooks.gate_off()
     want = job.get("settle", 0.12)
@@ -183,7 +212,7 @@ def run_job(job):
             starts["0"] = starts.get("0", 0) + 1
     accept_running = "main" in threads and threads["main"].is_alive() and not main_end
     obs = {"steps": steps, "stuck": stuck, "results": {str(k): v for k, v in results.items()}, "starts": starts, "wrong_flavour": wrong_flavour,
-           "accept_running": accept_running, "main_end": dict(main_end)}
+           "accept_running": accept_running, "main_end": dict(main_end), "shut_end": dict(shut_end)}
     # tear down
     stop.set()
     fail_now.set()
